@@ -181,6 +181,28 @@ def run_case(spec, work):
                                     'the query gene columns with their names '
                                     f'({pname})'})
 
+    # (c') a query without a single zero, stored as CSR with the column
+    #      indices of every row in shuffled order (what csr[:, order]
+    #      leaves behind) against the same file with sorted indices
+    Xp = w.Xq.astype(np.float64) + 1.0
+    outs = []
+    for tag, uns in (('sorted', None), ('unsorted', 12345 + spec['seed'])):
+        wu = mapworld.derive_world(w, 'full_' + tag, Xq=Xp, encoding='csr',
+                                   spec_updates={'unsorted_indices': uns})
+        ju, _, err = _run(wu)
+        if ju is None:
+            viol.append({'sig': 'C07:permuted-run-raises', 'msg': err})
+            break
+        outs.append(ju['results'])
+    if len(outs) == 2:
+        counters['pairs_fully_stored_csr_unsorted_indices'] = 1
+        if outs[0] != outs[1]:
+            viol.append({'sig': 'C07:gene-order-changes-result[unsorted-'
+                                'csr-indices]',
+                         'msg': 'results differ between a fully stored CSR '
+                                'query with sorted and with shuffled column '
+                                'indices'})
+
     # (d) normalised query with non-marker / non-reference genes added or
     #     removed: bitwise
     wn = mapworld.derive_world(w, 'normf', Xq=Xn, normalization='log2CPM')
